@@ -49,10 +49,13 @@ REF_PROGS = {
     "reloc-imp14": "\tcpu 8051\n\textern_sym a\n\textern_sym abcd\n\tmov a,#1\n\tljmp a\n\tmov dptr,#abcd\n\tljmp abcd\n",
     "reloc-imp25": "\tcpu 68000\n\textern_sym ab\n\textern_sym abcde\n\tdc.l ab\n\tdc.w 1\n\tdc.l abcde\n",
     "big": "\tcpu z80\n\torg 0\n\tdb 300 dup (0aah)\n\tdb 300 dup (055h)\n",
+    # importer whose external names the partner file below (LINK_PARTNER) exports, followed by a longer record
+    "reloc-link": "\tcpu 8051\n\textern_sym abc\n\textern_sym de\n\tmov a,#1\n\tljmp abc\n\tmov dptr,#de\n\torg 400h\n\tdb 300 dup (7)\n",
     # data up to the very top of the 32-bit address space, and straddling 64 KiB / 1 MiB boundaries of the hex formats
     "hi32": "\tcpu 68020\n\torg $fffffff8\n\tdc.b 1,2,3,4,5,6,7,8\n\torg $ffff\n\tdc.b 9,10\n\torg $fffff\n\tdc.b 11,12\n",
     "hi16": "\tcpu z80\n\torg 0fff8h\n\tdb 1,2,3,4,5,6,7,8\n\tend 0ffffh\n",
 }
+LINK_PARTNER = "\tcpu 8051\n\torg 200h\nabc:\tnop\nde:\tnop\n\texport_sym abc\n\texport_sym de\n"
 BIG64K = "\tcpu 68000\n\torg 0\n\tpadding off\n" + "\tdc.b [16384]1,2,3,4\n" + "\tdc.b 5\n"
 
 
@@ -70,6 +73,7 @@ def sc_asl(src, opts=(), name="a", extra_disk=None, **kw):
 
 
 _refs = None
+_partner = None
 
 
 def ref_files(sim):
@@ -92,6 +96,11 @@ def ref_files(sim):
                                          entry=0x100, short=True)
     refs["synth-grans"] = codefile.build([(0x70, 1, 2, 0, b"\x01\x30\x02\x30"), (0x76, 1, 4, 0x10, b"\x01\x02\x03\x04"),
                                           (0x31, 2, 1, 0x30, b""), (0x31, 4, 1, 0xFFFF, b"\x55")])
+    global _partner
+    rp, san = sim.run("asl", sc_asl(LINK_PARTNER))
+    _partner = rp.get("/w/a.p")
+    if rp.outcome != "exit:0" or _partner is None:
+        raise RuntimeError("link partner does not assemble: %s %r" % (rp.outcome, rp.stderr[:300]))
     _refs = refs
     return refs
 
@@ -106,7 +115,8 @@ def tool_matrix(full, sel):
             ("pbind", ["f.p", "out.p"]),
             ("p2bin", ["f.p", "out.bin", "-r", "0x-0x"]),
             ("p2hex", ["f.p", "out.hex"]),
-            ("alink", ["f.p", "out.p"])]
+            ("alink", ["f.p", "out.p"]),
+            ("alink", ["f.p", "g.p", "out.p"])]  # g.p exports the names the reference files import
     ext = [("pbind", ["f.p", "out.p", "-f", "$51,$31,$01"]),
            ("p2bin", ["f.p", "out.bin"]),
            ("p2bin", ["f.p", "out.bin", "-r", "$100-$1ff", "-l", "0"]),
@@ -282,6 +292,8 @@ def gen_toolopt(rng, refs):
 
 def sc_tool(prog, argv, fbytes, extra=None):
     disk = {"/w/f.p": fbytes}
+    if _partner is not None:
+        disk["/w/g.p"] = _partner
     if extra:
         disk.update(extra)
     return dict(argv=list(argv), cwd="/w", disk=disk, env={"LANG": "C"}, max_disk=8 << 20)
@@ -739,6 +751,31 @@ def field_edits(b, full=True):
         for tot in (-13, -12, -1, -14):
             v = (tot - 16 * cnt - 16 * ecnt) & 0xFFFFFFFF
             out.append(("rel%d.total=%d" % (qi, tot), b[:roff + 9] + struct.pack("<I", v) + b[roff + 13:]))
+        # the entries themselves: patch addresses around both ends of the record they belong to (the record in front of the
+        # table), name offsets around the string table, relocation types, export flags and values
+        prev = [r for r in cf.records if r.off < roff]
+        r0 = prev[-1] if prev else None
+        tab0 = roff + 13
+        slen = len(_tab) - 16 * cnt - 16 * ecnt
+        for j in range(cnt):
+            eo = tab0 + 16 * j
+            if r0 is not None:
+                for d in (-1, -2, -3, -4, -5, -8, -9, 0, r0.length - 1, r0.length - 2, r0.length - 3, r0.length, r0.length + 1,
+                          1 << 32, (1 << 63), (1 << 64) - 1):
+                    a = (r0.start + d) & 0xFFFFFFFFFFFFFFFF
+                    out.append(("rel%d.entry%d.addr=start%+d" % (qi, j, d), b[:eo] + struct.pack("<Q", a) + b[eo + 8:]))
+            for v in (0, 1, slen - 1, slen, slen + 1, 0x7FFFFFFF, 0xFFFFFFFF):
+                out.append(("rel%d.entry%d.name=%d" % (qi, j, v), b[:eo + 8] + struct.pack("<I", v & 0xFFFFFFFF) + b[eo + 12:]))
+            for v in list(range(0, 20)) + [0x20, 0x40, 0x80, 0xFF, 0x100, 0xFFFF, 0xFFFFFFFF]:
+                out.append(("rel%d.entry%d.type=%x" % (qi, j, v), b[:eo + 12] + struct.pack("<I", v) + b[eo + 16:]))
+        for j in range(ecnt):
+            eo = tab0 + 16 * cnt + 16 * j
+            for v in (0, 1, slen - 1, slen, slen + 1, 0xFFFFFFFF):
+                out.append(("rel%d.export%d.name=%d" % (qi, j, v), b[:eo] + struct.pack("<I", v & 0xFFFFFFFF) + b[eo + 4:]))
+            for v in (0, 1, 2, 3, 0xFF, 0xFFFFFFFF):
+                out.append(("rel%d.export%d.flags=%x" % (qi, j, v), b[:eo + 4] + struct.pack("<I", v) + b[eo + 8:]))
+            for v in (0, 1, 0xFFFF, 1 << 32, (1 << 64) - 1):
+                out.append(("rel%d.export%d.value=%x" % (qi, j, v), b[:eo + 8] + struct.pack("<Q", v) + b[eo + 16:]))
     return out
 
 
